@@ -35,7 +35,7 @@ def Env.withSchema (e : Env) (S : Schema) : Env := { e with schema := S }
 
 mutual
   theorem valueToJ_schema (e : Env) (S : Schema) : ∀ (v : Value), valueToJ (e.withSchema S) v = valueToJ e v
-    | .var n => by simp [valueToJ, Env.withSchema]
+    | .var n _ => by simp [valueToJ, Env.withSchema]
     | .int _ => rfl
     | .float _ => rfl
     | .str _ => rfl
@@ -99,14 +99,16 @@ mutual
       simp only [concreteOnlySel, Bool.and_eq_true] at h
       have hk : ∀ o', evalSels (e.withSchema S) o' sub [] = evalSels e o' sub [] :=
         fun o' => evalSels_schema e S sub o' [] h.2
-      have hc := completeWith_congr e.data (fun o' => evalSels (e.withSchema S) o' sub [])
-        (fun o' => evalSels e o' sub []) (echoArgs (e.withSchema S) args) (echoArgs e args) hk
-        (echoArgs_schema e S args) type
+      have hfv : fieldValue (e.withSchema S) o name args type (fun o' => evalSels (e.withSchema S) o' sub [])
+          = fieldValue e o name args type (fun o' => evalSels e o' sub []) := by
+        have hc := completeWith_congr e.data (fun o' => evalSels (e.withSchema S) o' sub [])
+          (fun o' => evalSels e o' sub []) (echoArgs (e.withSchema S) args) (echoArgs e args) hk
+          (echoArgs_schema e S args) type
+        have hd : (e.withSchema S).data = e.data := rfl
+        unfold fieldValue
+        simp only [storedValue_schema e S o name args h.1, hd, hc]
       rw [evalSel, evalSel]
-      simp only [skipped_schema, storedValue_schema e S o name args h.1]
-      have hd : (e.withSchema S).data = e.data := rfl
-      rw [hd]
-      simp only [hc]
+      simp only [skipped_schema, hfv]
     | .inline cond pk pn dirs sub, o, acc, h => by
       simp only [concreteOnlySel, Bool.and_eq_true, beq_iff_eq] at h
       rw [evalSel, evalSel]
@@ -159,7 +161,7 @@ theorem eval_node_lookup (env : Env) (e : Entity) (sels : List Sel) (kvs : List 
     simp [skipped, applies, Obj.typeName, hk]
   unfold convertToNodeQuery
   rw [evalSels, evalSel]
-  simp only [skipped, List.any_nil, Bool.false_eq_true, ↓reduceIte, hstored]
+  simp only [skipped, List.any_nil, Bool.false_eq_true, ↓reduceIte, fieldValue, hstored]
   simp [completeWith, he, hinner, addKey, J.lookup, evalSels]
 
 end PebblesVerif.Spec
